@@ -21,7 +21,8 @@ LEVEL = 'exploration'
 RULE = ("the C10 module generator (by-construction outcomes incl. force-disabled, comment only, unmet REQUIRES) extended by "
         "bodies whose verdict depends on the defaults (ellipsis want, whitespace-normalised want, a wrong want that only "
         "IGNORE_WANT lets pass; a doctest that fails after binding a name followed by doctests whose outcome depends on "
-        "that name not being there) x style {auto, google, freeform} x defaults {none, -ELLIPSIS, +SKIP, -NORMALIZE_WHITESPACE, "
+        "that name not being there; text files of google-style Example blocks through --xdoctest-glob (plugin only, "
+        "by-construction outcomes in file order: __name__, main guard, own names only, names of a failed earlier block)) x style {auto, google, freeform} x defaults {none, -ELLIPSIS, +SKIP, -NORMALIZE_WHITESPACE, "
         "+IGNORE_WANT} passed as --options / --xdoctest-options.  Non-trivial = at least two doctests of different "
         "outcomes; distinct by (source, style, options) hash")
 ASSUMPTIONS = [
@@ -66,7 +67,8 @@ def outcome_under(kind, base, options):
 
 def required_cells(tier):
     return (['agree:passed', 'agree:failed', 'agree:skipped', 'agree:disabled', 'style:auto', 'style:google',
-             'style:freeform', 'exit:0', 'exit:1', 'leftover-pair:fail_reads_leftover', 'leftover-pair:pass_no_leftover'] +
+             'style:freeform', 'exit:0', 'exit:1', 'leftover-pair:fail_reads_leftover', 'leftover-pair:pass_no_leftover',
+             'textfile:agree', 'textfile:__name__-in-a-later-example', 'textfile:after-a-failed-example:reads_previous'] +
             ['options:' + (o or 'none') for o in set(OPTIONS)])
 
 
@@ -219,14 +221,112 @@ def check_module(ctx, idx, seed):
         shutil.rmtree(work, ignore_errors=True)
 
 
+# ---------------------------------------------------------------- text files (plugin only)
+
+TEXT_KINDS = {
+    # kind: (lines after the mark line, outcome)
+    'name': (['>>> print(__name__)', '__main__'], 'passed'),
+    'mainguard': (['>>> if __name__ == "__main__":', '...     print("ran")', 'ran'], 'passed'),
+    'bind': (['>>> own_{i} = 1', '>>> print(sorted(k for k in globals() if k.startswith("own_")))', "['own_{i}']"], 'passed'),
+    'fail_after_binding': (['>>> own_{i} = 1', '>>> print("a")', 'b'], 'failed'),
+    'reads_previous': (['>>> print(own_{p} + 1)', '2'], 'failed'),
+    'skip': (['>>> print("never")  # xdoctest: +SKIP', 'BOGUS'], 'passed'),
+    'all_skipped': None,
+}
+MARK_LINE = '>>> import os; _f = open(os.environ["XV_MARKFILE"], "a"); _ = _f.write("{id}\\n"); _f.close(); del _f, _, os'
+
+
+def check_textfile(ctx, idx, seed):
+    """
+    A text file of google-style Example blocks run through the plugin (--xdoctest-glob): every block is a doctest of
+    its own, runs as __main__ in a namespace of its own, whatever the blocks before it did.  The native runner has no
+    text files: the oracle is the by-construction outcome of each block, in file order.
+    """
+    rng = random.Random(seed ^ 0x7e47)
+    n = rng.randint(2, 6)
+    kinds = []
+    for k in range(n):
+        kd = rng.choice(['name', 'mainguard', 'bind', 'fail_after_binding', 'skip', 'all_skipped'])
+        if k and rng.random() < 0.35:
+            kd = 'reads_previous'
+        if k and kinds[-1] == 'fail_after_binding' and rng.random() < 0.6:
+            kd = rng.choice(['reads_previous', 'bind', 'name', 'mainguard'])
+        kinds.append(kd)
+    L = ['Title %d' % idx, '=' * 8, '']
+    exp = []
+    ids = []
+    for k, kd in enumerate(kinds):
+        i = 't%dx%d' % (idx, k)
+        L.append(rng.choice(['Example:', 'Doctest:']))
+        if kd == 'all_skipped':
+            body, outcome = ['>>> # xdoctest: +SKIP', MARK_LINE.replace('{id}', i), '>>> print("never")', 'BOGUS'], 'skipped'
+        else:
+            lines, outcome = TEXT_KINDS[kd]
+            body = [MARK_LINE.replace('{id}', i)] + [ln.replace('{i}', str(k)).replace('{p}', str(k - 1)) for ln in lines]
+            ids.append(i)
+        L += ['    ' + ln for ln in body] + ['', 'Some prose between the examples.', '']
+        exp.append(outcome)
+    text = '\n'.join(L) + '\n'
+    work = os.path.join(ctx.tmp, 'tx_%d_%d' % (ctx.shard, idx))
+    os.mkdir(work)
+    path = os.path.join(work, 'doc_%d.txt' % idx)
+    with open(path, 'w') as f:
+        f.write(text)
+    style = rng.choice(['google', 'auto'])
+    case = {'index': idx, 'case_seed': seed, 'textfile': True}
+    ctx.evaluation()
+    if len(set(exp)) >= 2:
+        ctx.nontrivial((text, style))
+    try:
+        xml = os.path.join(work, 'junit.xml')
+        mf = os.path.join(work, 'marks')
+        cmd = [sys.executable, '-m', 'pytest', '-p', 'no:cacheprovider', '--xdoctest', '--xdoctest-glob=*.txt',
+               '--xdoctest-style=' + style, '-q', '--color=no', '--junitxml=' + xml, path]
+        p = subprocess.run(cmd, stdout=subprocess.PIPE, stderr=subprocess.STDOUT, text=True, cwd=work,
+                           env=dict(os.environ, XV_MARKFILE=mf), timeout=300)
+        ctx.event('pytest_textfile_runs')
+        got = []
+        if os.path.exists(xml):
+            for tc in ET.parse(xml).getroot().iter('testcase'):
+                got.append('failed' if tc.find('failure') is not None else 'error' if tc.find('error') is not None else
+                           'skipped' if tc.find('skipped') is not None else 'passed')
+        if got != exp:
+            ctx.violation('textfile-verdicts', 'the examples of a text file, in order, are %r by construction (%r); pytest reports '
+                          '%r (style=%s)\n--- text file ---\n%s\n--- pytest ---\n%s' % (exp, kinds, got, style, text, p.stdout[-1500:]),
+                          case, expected=exp, observed=got)
+            return
+        marks = read_marks(mf)
+        if marks != ids:
+            ctx.violation('exactly-once', 'text file: executed ids %r, expected %r\n%s' % (marks, ids, text), case)
+            return
+        if (p.returncode != 0) != ('failed' in exp):
+            ctx.violation('exit-status', 'text file: pytest exits %d with outcomes %r' % (p.returncode, exp), case)
+            return
+        ctx.cell('textfile:agree')
+        for a, b in zip(kinds, kinds[1:]):
+            if a == 'fail_after_binding':
+                ctx.cell('textfile:after-a-failed-example:' + b)
+            if b in ('name', 'mainguard'):
+                ctx.cell('textfile:__name__-in-a-later-example')
+        ctx.event('textfile_verdicts_compared', len(exp))
+    finally:
+        import shutil
+        shutil.rmtree(work, ignore_errors=True)
+
+
 def run_shard(ctx):
     n = ctx.pick(64, 640)
     for idx in ctx.my_indices(n):
         check_module(ctx, idx, ctx.case_seed(idx))
+    for idx in ctx.my_indices(ctx.pick(32, 320)):
+        check_textfile(ctx, idx, ctx.case_seed(idx))
 
 
 def replay(case, ctx):
-    check_module(ctx, case['index'], case['case_seed'])
+    if case.get('textfile'):
+        check_textfile(ctx, case['index'], case['case_seed'])
+    else:
+        check_module(ctx, case['index'], case['case_seed'])
 
 
 def classify(v):
